@@ -159,3 +159,32 @@ def check_builtin_arithmetic(ctx, prog, tag=""):
                    "checks it panics when it wraps" % (k, ex), f.where(bb))
     ctx.floor("C01.P3c overflow-capable operations outside the taint" + tag, n, 20)
     ctx.count("C01.P3c discharged automatically" + tag, nauto)
+
+
+REVIEWED_SUMS = {
+    "minijinja::compiler::lexer::lex_identifier": "sum of len_utf8() over a prefix of the source text",
+    "minijinja::compiler::lexer::Tokenizer::skip_whitespace": "sum of len_utf8() over a prefix of the source text",
+    "minijinja::compiler::lexer::Tokenizer::tokenize_block_or_var": "sum of len_utf8() over a prefix of the source text",
+}
+
+
+def check_accumulations(ctx, prog, tag=""):
+    """`Iterator::sum` / `product` inherit the overflow checks of the crate: an integer accumulation panics when it
+    wraps (the lengths of three lazy `[1] * n` sequences summed by `MergeSeq`, fix 7e66fe7).  Every such call in the
+    engine with an integer (or Option / Result of integer) result is reviewed or replaced by a checked fold."""
+    n = 0
+    for f in sorted(prog.fns.values(), key=lambda x: x.path):
+        if f.crate not in ("minijinja", "minijinja_contrib"):
+            continue
+        for c in f.calls():
+            if not (c.name.endswith("Iterator::sum") or c.name.endswith("Iterator::product")):
+                continue
+            dt = f.locals[c.dest["l"]].get("s", "") if c.dest and "p" not in c.dest else ""
+            if not re.search(r"\b(usize|u64|u32|u16|u8|i64|i32|isize|u128|i128)\b", dt):
+                continue
+            n += 1
+            root = f.root or f.path
+            ctx.ob("C01.P3.integer-accumulation-is-checked", tag + root, root in REVIEWED_SUMS,
+                   REVIEWED_SUMS.get(root) or "%s accumulates integers with Iterator::%s: the sum panics (overflow checks) when it "
+                   "does not fit - use try_fold with checked_add" % (root, c.name.split("::")[-1]), f.where(c.bb))
+    ctx.count("C01.P3d integer accumulations" + tag, n)
